@@ -17,7 +17,13 @@ CONSTANTS E,          \* blocks per epoch
           N,          \* number of validators (orders 0..N-1)
           Me,         \* order of the node's own key, -1 when it is not a validator
           MaxBlocks, MaxHeight, MaxVotes, MaxCalls,
-          Byz         \* validators allowed to sign anything (others are honest)
+          Byz,        \* validators allowed to sign anything (others are honest)
+          Shape,      \* "free": any tree; "two": at most two branches from genesis, blocks only extend tips (deep histories)
+          FullMint,   \* TRUE: the environment always mints MaxBlocks blocks and signs as many votes as fit (random deep walks)
+          InOrder,    \* TRUE: blocks are delivered parents first and once (no orphans; for deep histories)
+          Quorum,     \* TRUE: honest validators may sign one link together in one environment step
+          DevUnjustifiedSource  \* TRUE: mirror the code, which justifies a target from any source that is not yet finalized
+                                \* (the property demands a *justified* source); every such step is recorded in `devs`
 
 Vals == 0..(N - 1)
 
@@ -35,10 +41,12 @@ VARIABLES blk,      \* Seq([p, h, car]): minted blocks; car = set of vote ids ca
           ticks,    \* Seq(id): epoch hashes queued for the cached-verification loop
           posted,   \* Seq([v, s, t]): verification events the node posted (own votes and relayed ones)
           everF,    \* ghost: every checkpoint that ever was finalized
+          vseen,    \* vote ids already delivered (tracked in InOrder mode only, where each vote is delivered once)
+          devs,     \* ghost: justifications [t, s] the code made from a source that was not justified (known deviation)
           ncalls, last
 
-nvars == <<stored, prevOrph, best, mainIdx, root, status, links, hdr, vcache, ticks, posted, everF>>
-vars == <<blk, byh, votes, phase, nvars, ncalls, last>>
+nvars == <<stored, prevOrph, best, mainIdx, root, status, links, hdr, vcache, ticks, posted, everF, devs>>
+vars == <<blk, byh, votes, phase, nvars, vseen, ncalls, last>>
 
 Ids == 1..Len(blk)
 Parent(b) == IF b = 0 THEN 0 ELSE blk[b].p
@@ -97,13 +105,16 @@ Majority(k) == k > (N * 2) \div 3
 AddVer(n, v, s, t) ==
   LET ln == n.links \cup {[t |-> t, s |-> s, v |-> v]}
       cnt == Cardinality({x \in ln : x.t = t /\ x.s = s})
-      just == n.status[t] = "U" /\ Majority(cnt) /\ n.status[s] = "J"
+      intended == n.status[t] = "U" /\ Majority(cnt) /\ n.status[s] = "J"
+      ascode == n.status[t] = "U" /\ Majority(cnt) /\ n.status[s] # "F"
+      just == IF DevUnjustifiedSource THEN ascode ELSE intended
       fin == just /\ CpParent(t) = s
       st1 == IF just THEN [n.status EXCEPT ![t] = "J"] ELSE n.status
       st2 == IF fin THEN [st1 EXCEPT ![s] = "F"] ELSE st1
   IN [n EXCEPT !.links = ln, !.status = st2,
                !.root = IF fin /\ InTree(n.root, s) THEN s ELSE n.root,
-               !.everF = IF fin THEN n.everF \cup {s} ELSE n.everF]
+               !.everF = IF fin THEN n.everF \cup {s} ELSE n.everF,
+               !.devs = IF just /\ ~intended THEN n.devs \cup {[t |-> t, s |-> s]} ELSE n.devs]
 
 (* the verifications of one header/source processed in validator order *)
 RECURSIVE AddMany(_, _, _, _)
@@ -167,33 +178,36 @@ SaveSubList(n, q) ==
 SaveSub(n, b) == SaveSubList(n, n.prevOrph[b])
 
 NodeRec == [stored |-> stored, prevOrph |-> prevOrph, root |-> root, status |-> status, links |-> links,
-            hdr |-> hdr, ticks |-> ticks, posted |-> posted, everF |-> everF]
+            hdr |-> hdr, ticks |-> ticks, posted |-> posted, everF |-> everF, devs |-> devs]
 
 SetNode(n) == /\ stored' = n.stored /\ prevOrph' = n.prevOrph /\ root' = n.root /\ status' = n.status
               /\ links' = n.links /\ hdr' = n.hdr /\ ticks' = n.ticks /\ posted' = n.posted /\ everF' = n.everF
+              /\ devs' = n.devs
 
 -----------------------------------------------------------------------------
 Init == /\ blk = <<>> /\ byh = [h \in 1..MaxHeight |-> <<>>] /\ votes = <<>> /\ phase = "mint"
         /\ stored = {0} /\ prevOrph = [b \in 0..MaxBlocks |-> <<>>] /\ best = 0
         /\ mainIdx = [h \in 0..MaxHeight |-> IF h = 0 THEN 0 ELSE -1]
         /\ root = 0 /\ status = [b \in 0..MaxBlocks |-> IF b = 0 THEN "J" ELSE "N"]
-        /\ links = {} /\ hdr = {} /\ vcache = {} /\ ticks = <<>> /\ posted = <<>> /\ everF = {}
-        /\ ncalls = 0 /\ last = [op |-> "init"]
+        /\ links = {} /\ hdr = {} /\ vcache = {} /\ ticks = <<>> /\ posted = <<>> /\ everF = {} /\ devs = {}
+        /\ vseen = {} /\ ncalls = 0 /\ last = [op |-> "init"]
 
 Mint(p, pos) ==
   /\ phase = "mint" /\ Len(blk) < MaxBlocks /\ Height(p) < MaxHeight
-  /\ (Len(blk) > 0) => p >= blk[Len(blk)].p     \* canonical labelling: parents in non-decreasing order
+  /\ (Shape = "free" /\ Len(blk) > 0) => p >= blk[Len(blk)].p     \* canonical labelling: parents in non-decreasing order
+  /\ (Shape = "two") => \/ p = 0 /\ Cardinality({i \in Ids : blk[i].p = 0}) < 2
+                        \/ p # 0 /\ ~\E i \in Ids : blk[i].p = p
   /\ LET h == Height(p) + 1  id == Len(blk) + 1 IN
      /\ pos \in 0..Len(byh[h])
      /\ blk' = Append(blk, [p |-> p, h |-> h, car |-> {}])
      /\ byh' = [byh EXCEPT ![h] = InsertAt(@, pos, id)]
      /\ last' = [op |-> "mint", id |-> id, p |-> p, pos |-> pos]
-  /\ UNCHANGED <<votes, phase, nvars, ncalls>>
+  /\ UNCHANGED <<votes, phase, nvars, vseen, ncalls>>
 
-EndMint == /\ phase = "mint" /\ Len(blk) >= 1 /\ phase' = "votes" /\ last' = [op |-> "endmint"]
-           /\ UNCHANGED <<blk, byh, votes, nvars, ncalls>>
-EndVotes == /\ phase = "votes" /\ phase' = "run" /\ last' = [op |-> "endmint"]
-            /\ UNCHANGED <<blk, byh, votes, nvars, ncalls>>
+EndMint == /\ phase = "mint" /\ Len(blk) >= 1 /\ (FullMint => Len(blk) = MaxBlocks) /\ phase' = "votes" /\ last' = [op |-> "endmint"]
+           /\ UNCHANGED <<blk, byh, votes, nvars, vseen, ncalls>>
+EndVotes == /\ phase = "votes" /\ (FullMint => Len(votes) + N > MaxVotes) /\ phase' = "run" /\ last' = [op |-> "endmint"]
+            /\ UNCHANGED <<blk, byh, votes, nvars, vseen, ncalls>>
 
 (* honest validators: source globally justified (by the votes made so far), ancestor of the target, *)
 (* and no slashable pair with their earlier votes; Byzantine ones sign anything                      *)
@@ -220,10 +234,25 @@ MakeVote(v, s, t, ok) ==
   /\ s \in {0} \cup Ids /\ t \in Ids /\ IsCp(s) /\ IsCp(t) /\ Height(s) < Height(t)
   /\ (v \notin Byz) => (ok /\ HonestVote(v, s, t))
   /\ ~\E i \in 1..Len(votes) : votes[i] = [v |-> v, s |-> s, t |-> t, ok |-> ok]
-  /\ (Len(votes) > 0) => VoteLeq(votes[Len(votes)], [v |-> v, s |-> s, t |-> t, ok |-> ok])   \* canonical order
+  /\ (~Quorum /\ Len(votes) > 0) => VoteLeq(votes[Len(votes)], [v |-> v, s |-> s, t |-> t, ok |-> ok])   \* canonical order
   /\ votes' = Append(votes, [v |-> v, s |-> s, t |-> t, ok |-> ok])
   /\ last' = [op |-> "makevote", id |-> Len(votes) + 1, v |-> v, s |-> s, t |-> t, ok |-> ok]
-  /\ UNCHANGED <<blk, byh, phase, nvars, ncalls>>
+  /\ UNCHANGED <<blk, byh, phase, nvars, vseen, ncalls>>
+
+(* every honest validator (other than the node) that may sign s -> t does so in one step *)
+RECURSIVE AppendVotes(_, _, _, _)
+AppendVotes(q, vs, s, t) == IF vs = {} THEN q
+                            ELSE LET v == CHOOSE x \in vs : \A y \in vs : x <= y IN
+                                 AppendVotes(Append(q, [v |-> v, s |-> s, t |-> t, ok |-> TRUE]), vs \ {v}, s, t)
+MakeQuorum(s, t) ==
+  /\ Quorum /\ phase = "votes"
+  /\ s \in {0} \cup Ids /\ t \in Ids /\ IsCp(s) /\ IsCp(t) /\ Height(s) < Height(t)
+  /\ LET Q == {v \in Vals \ ({Me} \cup Byz) : HonestVote(v, s, t)
+                    /\ ~\E i \in 1..Len(votes) : votes[i].v = v /\ votes[i].s = s /\ votes[i].t = t} IN
+     /\ Q # {} /\ Len(votes) + Cardinality(Q) <= MaxVotes
+     /\ votes' = AppendVotes(votes, Q, s, t)
+     /\ last' = [op |-> "makequorum", id |-> Len(votes) + 1, vs |-> Q, s |-> s, t |-> t]
+  /\ UNCHANGED <<blk, byh, phase, nvars, vseen, ncalls>>
 
 (* a proposer may put known votes for the block itself into its header before it is first delivered *)
 Carry(b, i) ==
@@ -232,7 +261,7 @@ Carry(b, i) ==
   /\ b \notin stored /\ b \notin Orphans(prevOrph)
   /\ blk' = [blk EXCEPT ![b].car = @ \cup {i}]
   /\ last' = [op |-> "carry", b |-> b, vote |-> i]
-  /\ UNCHANGED <<byh, votes, phase, nvars, ncalls>>
+  /\ UNCHANGED <<byh, votes, phase, nvars, vseen, ncalls>>
 
 Reorg(n) == LET nb == BestOf(n.stored, n.status, n.root) IN
             /\ best' = nb /\ mainIdx' = IF nb = best THEN mainIdx ELSE MainIdxFor(nb, mainIdx)
@@ -242,6 +271,7 @@ NoTick == ticks = <<>>
 (* Chain.ProcessBlock(b) *)
 Deliver(b) ==
   /\ phase = "run" /\ NoTick /\ ncalls < MaxCalls /\ b \in Ids
+  /\ InOrder => (Parent(b) \in stored /\ b \notin stored)
   /\ ncalls' = ncalls + 1
   /\ IF (b \in stored \/ b \in Orphans(prevOrph)) /\ Height(best) >= Height(b)
        THEN /\ last' = [op |-> "deliver", b |-> b, orphan |-> (b \in Orphans(prevOrph)), err |-> FALSE]
@@ -249,7 +279,7 @@ Deliver(b) ==
        ELSE IF Parent(b) \notin stored
        THEN /\ prevOrph' = IF b \in Orphans(prevOrph) THEN prevOrph ELSE [prevOrph EXCEPT ![Parent(b)] = Append(@, b)]
             /\ last' = [op |-> "deliver", b |-> b, orphan |-> TRUE, err |-> FALSE]
-            /\ UNCHANGED <<stored, best, mainIdx, root, status, links, hdr, vcache, ticks, posted, everF>>
+            /\ UNCHANGED <<stored, best, mainIdx, root, status, links, hdr, vcache, ticks, posted, everF, devs>>
        ELSE IF b \in stored
        THEN \* a stored block above the best height is processed again: nothing new to apply,
             \* but the first block of an epoch queues its epoch hash for the cached-verification loop again
@@ -263,7 +293,7 @@ Deliver(b) ==
               ELSE LET n2 == SaveSub(r.n, b) IN
                    /\ SetNode(n2) /\ Reorg(n2) /\ UNCHANGED vcache
                    /\ last' = [op |-> "deliver", b |-> b, orphan |-> FALSE, err |-> FALSE]
-  /\ UNCHANGED <<blk, byh, votes, phase>>
+  /\ UNCHANGED <<blk, byh, votes, phase, vseen>>
 
 (* Casper.authVerification of an admitted message, shared by DeliverVote and EpochTick *)
 Auth(n, v, s, t, ok) ==
@@ -274,12 +304,14 @@ Auth(n, v, s, t, ok) ==
 (* Chain.ProcessBlockVerification(msg) *)
 DeliverVote(i) ==
   /\ phase = "run" /\ NoTick /\ ncalls < MaxCalls /\ i \in 1..Len(votes)
+  /\ InOrder => i \notin vseen
+  /\ vseen' = IF InOrder THEN vseen \cup {i} ELSE vseen
   /\ ncalls' = ncalls + 1
   /\ LET m == votes[i] IN
      IF ~(m.t \in stored /\ InTree(root, m.t))
        THEN /\ vcache' = {x \in vcache : ~(x.t = m.t /\ x.v = m.v)} \cup {[t |-> m.t, v |-> m.v, s |-> m.s, ok |-> m.ok]}
             /\ last' = [op |-> "vote", i |-> i, err |-> FALSE, r |-> "cached"]
-            /\ UNCHANGED <<stored, prevOrph, best, mainIdx, root, status, links, hdr, ticks, posted, everF>>
+            /\ UNCHANGED <<stored, prevOrph, best, mainIdx, root, status, links, hdr, ticks, posted, everF, devs>>
        ELSE IF m.s \notin stored
        THEN /\ last' = [op |-> "vote", i |-> i, err |-> TRUE, r |-> "nosource"] /\ UNCHANGED nvars
        ELSE IF m.t = root   \* stale: the target is the finalized root; ignored, result class free
@@ -313,11 +345,12 @@ EpochTick ==
      /\ SetNode(n1) /\ Reorg(n1)
      /\ vcache' = IF t \in stored THEN {x \in vcache : x.t # t} ELSE vcache
      /\ last' = [op |-> "tick", t |-> t]
-  /\ UNCHANGED <<blk, byh, votes, phase, ncalls>>
+  /\ UNCHANGED <<blk, byh, votes, phase, vseen, ncalls>>
 
 Next == \/ \E p \in {0} \cup Ids, pos \in 0..MaxBlocks : Mint(p, pos)
         \/ EndMint \/ EndVotes
         \/ \E v \in Vals, s \in {0} \cup Ids, t \in Ids, ok \in BOOLEAN : MakeVote(v, s, t, ok)
+        \/ \E s \in {0} \cup Ids, t \in Ids : MakeQuorum(s, t)
         \/ \E b \in Ids, i \in 1..MaxVotes : Carry(b, i)
         \/ \E b \in Ids : Deliver(b)
         \/ \E i \in 1..MaxVotes : DeliverVote(i)
@@ -330,13 +363,14 @@ Spec == Init /\ [][Next]_vars
 Quiet == ticks = <<>>
 BestIsForkChoice == Quiet => best = BestOf(stored, status, root)
 IndexIsAncestry == \A h \in 0..Height(best) : mainIdx[h] = Anc(best, h)
-InMain(b) == mainIdx[Height(b)] = b
+(* entries above the best height are left over from a longer, abandoned branch: they must not make a block look main *)
+InMain(b) == Height(b) <= Height(best) /\ mainIdx[Height(b)] = b
 InMainIffAncestor == Quiet => \A b \in stored : InMain(b) <=> IsAncestor(b, best)
 (* C12 *)
 (* an orphan whose parent is stored can only be one that finality made unconnectable *)
 NoStrandedOrphan == \A o \in Orphans(prevOrph) : Parent(o) \in stored => ~InTree(root, Cp(Parent(o)))
 (* C16 *)
-NoConflictingFinal == \A a, b \in everF : IsAncestor(a, b) \/ IsAncestor(b, a)
+NoConflictingFinal == (devs = {}) => \A a, b \in everF : IsAncestor(a, b) \/ IsAncestor(b, a)
 FinalMonotone == [][IsAncestor(root, root')]_vars
 FinalInMain == Quiet => IsAncestor(root, best)
 (* C17 *)
@@ -352,5 +386,5 @@ NoSlashablePair(S) == \A a, b \in S : (a.v = b.v /\ a # b) =>
 NoSlashableAdmitted == NoSlashablePair(links)
 NoSlashableSent == NoSlashablePair({[v |-> posted[i].v, s |-> posted[i].s, t |-> posted[i].t] : i \in {j \in 1..Len(posted) : posted[j].v = Me}})
 
-View == <<blk, byh, votes, phase, nvars, ncalls>>
+View == <<blk, byh, votes, phase, nvars, vseen, ncalls>>
 =============================================================================
